@@ -10,7 +10,9 @@ ENTRIES = [(COX, "CoxeterGroup." + m) for m in (
     "bilinear_form", "cartan_representation", "geometric_representation",
     "canonical_representation", "cartan_matrix", "tits_vinberg_rep",
     "hyperbolic_rep")] + [(COX, "CoxeterGroup.__init__"),
-                          (COX, "TriangleGroup.__init__")]
+                          (COX, "TriangleGroup.__init__"),
+                          ("geometry_tools/hyperbolic.py",
+                           "HyperbolicRepresentation.isometries")]
 
 
 def run(ctx):
